@@ -1,9 +1,328 @@
+import PbBss.Model.Bf
+import PbBss.Model.Num
 import Driver.Util
-/-! line-protocol operations of the `Bf` models (stub: filled in by the owner of these models) -/
+/-! line-protocol operations of the `Bf` models (C11, C12).
+
+Externals are supplied by small `Float` routines of the driver's own (DESIGN.md 2.1): Gaussian elimination with
+partial pivoting (`np.linalg.solve`), Cholesky + complex Jacobi (`scipy.linalg.eigh(A, B)`), Jacobi
+(`np.linalg.eigh`), principal complex square root (`np.sqrt`) — or are passed in from the real call
+(ops ending in `u` / `v`). -/
+open PbBss PbBss.Bf
 namespace Driver
+
+abbrev CMat := Array (Array CF)
+
+def cfZero : CF := ⟨0, 0⟩
+def cfAbs2 (z : CF) : Float := z.re * z.re + z.im * z.im
+def cfConj (z : CF) : CF := ⟨z.re, -z.im⟩
+def CMat.at (m : CMat) (i j : Nat) : CF := (m[i]!)[j]!
+def CMat.put (m : CMat) (i j : Nat) (v : CF) : CMat := m.set! i ((m[i]!).set! j v)
+
+/-- principal complex square root -/
+def cfSqrt (z : CF) : CF :=
+  let r := Float.sqrt (cfAbs2 z)
+  let s := Float.sqrt ((r + z.re) / 2)
+  let t := Float.sqrt ((r - z.re) / 2)
+  ⟨s, if z.im < 0 then -t else t⟩
+
+/-- complex token table: entry `i` is `re im` at `off + 2 i` -/
+def cx (a : Array String) (off : Nat) (i : Nat) : CF := ⟨tokFloat a (off + 2 * i), tokFloat a (off + 2 * i + 1)⟩
+
+def cvec (a : Array String) (off D : Nat) : Array CF := Array.ofFn (n := D) fun d => cx a off d.val
+def cmat (a : Array String) (off D : Nat) : CMat :=
+  Array.ofFn (n := D) fun i => Array.ofFn (n := D) fun j => cx a off (i.val * D + j.val)
+
+def vecFn {D : Nat} (v : Array CF) : Fin D → CF := fun d => v[d.val]!
+def matFn {D : Nat} (m : CMat) : Fin D → Fin D → CF := fun i j => m.at i.val j.val
+def matOf {D : Nat} (f : Fin D → Fin D → CF) : CMat := Array.ofFn (n := D) fun i => Array.ofFn (n := D) fun j => f i j
+def vecOf {D : Nat} (f : Fin D → CF) : Array CF := Array.ofFn (n := D) f
+
+def fmtC (xs : List CF) : String := fmtFloats (xs.flatMap fun z => [z.re, z.im])
+def fmtVec {D : Nat} (f : Fin D → CF) : String := fmtC ((List.finRange D).map f)
+def fmtMat {D : Nat} (f : Fin D → Fin D → CF) : String :=
+  fmtC ((List.finRange D).flatMap fun i => (List.finRange D).map fun j => f i j)
+
+/-- `np.linalg.solve(A, B)`: Gaussian elimination with partial pivoting, `A` n×n, `B` n×m -/
+def gaussSolve (n m : Nat) (A B : CMat) : CMat := Id.run do
+  let mut a := A
+  let mut b := B
+  for k in [0:n] do
+    let mut p := k
+    let mut best := cfAbs2 (a.at k k)
+    for i in [k+1:n] do
+      let v := cfAbs2 (a.at i k)
+      if v > best then
+        p := i
+        best := v
+    if p != k then
+      let rk := a[k]!
+      let rp := a[p]!
+      a := (a.set! k rp).set! p rk
+      let bk := b[k]!
+      let bp := b[p]!
+      b := (b.set! k bp).set! p bk
+    let akk := a.at k k
+    for i in [k+1:n] do
+      let f := a.at i k / akk
+      for j in [k:n] do
+        a := a.put i j (a.at i j - f * a.at k j)
+      for j in [0:m] do
+        b := b.put i j (b.at i j - f * b.at k j)
+  let mut x : CMat := Array.replicate n (Array.replicate m cfZero)
+  for kk in [0:n] do
+    let k := n - 1 - kk
+    for j in [0:m] do
+      let mut s := b.at k j
+      for l in [k+1:n] do
+        s := s - a.at k l * x.at l j
+      x := x.put k j (s / a.at k k)
+  return x
+
+def solveVec {D : Nat} (A : Fin D → Fin D → CF) (b : Fin D → CF) : Array CF :=
+  let x := gaussSolve D 1 (matOf A) (Array.ofFn (n := D) fun i => #[b i])
+  Array.ofFn (n := D) fun i => x.at i.val 0
+
+/-- lower Cholesky factor `B = L Lᴴ` -/
+def cholesky (n : Nat) (B : CMat) : CMat := Id.run do
+  let mut l : CMat := Array.replicate n (Array.replicate n cfZero)
+  for j in [0:n] do
+    let mut s := (B.at j j).re
+    for k in [0:j] do
+      s := s - cfAbs2 (l.at j k)
+    let d := Float.sqrt s
+    l := l.put j j ⟨d, 0⟩
+    for i in [j+1:n] do
+      let mut t := B.at i j
+      for k in [0:j] do
+        t := t - l.at i k * cfConj (l.at j k)
+      l := l.put i j ⟨t.re / d, t.im / d⟩
+  return l
+
+/-- `X = L⁻¹ M` (forward substitution, `L` lower triangular) -/
+def lowerSolve (n : Nat) (L M : CMat) : CMat := Id.run do
+  let mut x : CMat := Array.replicate n (Array.replicate n cfZero)
+  for i in [0:n] do
+    for j in [0:n] do
+      let mut s := M.at i j
+      for k in [0:i] do
+        s := s - L.at i k * x.at k j
+      x := x.put i j (s / L.at i i)
+  return x
+
+/-- `X = L⁻ᴴ M` (back substitution with the conjugate transpose of `L`) -/
+def upperHSolve (n : Nat) (L M : CMat) : CMat := Id.run do
+  let mut x : CMat := Array.replicate n (Array.replicate n cfZero)
+  for ii in [0:n] do
+    let i := n - 1 - ii
+    for j in [0:n] do
+      let mut s := M.at i j
+      for k in [i+1:n] do
+        s := s - cfConj (L.at k i) * x.at k j
+      x := x.put i j (s / cfConj (L.at i i))
+  return x
+
+def ctrans (n : Nat) (M : CMat) : CMat :=
+  Array.ofFn (n := n) fun i => Array.ofFn (n := n) fun j => cfConj (M.at j.val i.val)
+
+def toNum (M : CMat) : Num.Mat := M.map fun r => r.map fun z => (⟨z.re, z.im⟩ : Num.C)
+def ofNum (M : Num.Mat) : CMat := M.map fun r => r.map fun z => (⟨z.re, z.im⟩ : CF)
+
+/-- `np.linalg.eigh`: eigenvalues ascending, eigenvectors as columns -/
+def eighF (n : Nat) (A : CMat) : Array Float × CMat :=
+  let (vals, vecs) := Num.eigh n (toNum A) 40
+  (vals, ofNum vecs)
+
+/-- `scipy.linalg.eigh(A, B)`: `B = L Lᴴ`, Jacobi on `L⁻¹ A L⁻ᴴ`, back-transform `V = L⁻ᴴ U` -/
+def geighF (n : Nat) (A B : CMat) : Array Float × CMat :=
+  let L := cholesky n B
+  let c1 := lowerSolve n L A                        -- L⁻¹ A
+  let c := lowerSolve n L (ctrans n c1)             -- L⁻¹ (L⁻¹ A)ᴴ = L⁻¹ A L⁻ᴴ (A Hermitian)
+  let ch : CMat := Array.ofFn (n := n) fun i => Array.ofFn (n := n) fun j =>
+    let x := c.at i.val j.val
+    let y := cfConj (c.at j.val i.val)
+    (⟨0.5 * (x.re + y.re), 0.5 * (x.im + y.im)⟩ : CF)
+  let (vals, u) := eighF n ch
+  (vals, upperHSolve n L u)
+
+def scalingOf (k : Nat) : PcaScaling := if k == 1 then .trace else if k == 2 then .eigenvalue else .none
+
+/-- per-bin `stable_solve(Φnn, Φxx)` tables for `(F, D, D)` inputs -/
+def phiTabs (a : Array String) (offX offN F D : Nat) : Array CMat :=
+  Array.ofFn (n := F) fun f => gaussSolve D D (cmat a (offN + 2 * D * D * f.val) D) (cmat a (offX + 2 * D * D * f.val) D)
+
+def stackFn {F D : Nat} (t : Array CMat) : Fin F → Fin D → Fin D → CF := fun f i j => (t[f.val]!).at i.val j.val
+def stackTok {F D : Nat} (a : Array String) (off : Nat) : Fin F → Fin D → Fin D → CF :=
+  fun f i j => cx a off ((f.val * D + i.val) * D + j.val)
 
 def opsBf (a : Array String) : Option String :=
   match a[0]! with
+  | "mvdr" =>
+    -- mvdr D <a> <Phi>        (own solver)
+    let D := tokNat a 1
+    let av := cvec a 2 D
+    let Φ := cmat a (2 + 2 * D) D
+    let w := getMvdrVector Float (fun A b => vecFn (D := D) (solveVec A b)) (vecFn (D := D) av) (matFn (D := D) Φ)
+    some (fmtVec w)
+  | "mvdru" =>
+    -- mvdru D <a> <u>         (u = the real solver's result)
+    let D := tokNat a 1
+    let av := cvec a 2 D
+    let u := cvec a (2 + 2 * D) D
+    some (fmtVec (mvdrFromSolve Float (vecFn (D := D) av) (vecFn (D := D) u)))
+  | "hermsym" =>
+    let D := tokNat a 1
+    some (fmtMat (hermSym Float (matFn (D := D) (cmat a 2 D))))
+  | "lcmv" =>
+    -- lcmv K D <A: K·D> <r: K> <Phi>
+    let K := tokNat a 1
+    let D := tokNat a 2
+    let A : Array (Array CF) := Array.ofFn (n := K) fun k => cvec a (3 + 2 * D * k.val) D
+    let r := cvec a (3 + 2 * D * K) K
+    let Φ := cmat a (3 + 2 * D * K + 2 * K) D
+    let U : Array (Array CF) := A.map fun ak => solveVec (matFn (D := D) Φ) (vecFn (D := D) ak)
+    let Af : Fin K → Fin D → CF := fun k d => (A[k.val]!)[d.val]!
+    let Uf : Fin K → Fin D → CF := fun k d => (U[k.val]!)[d.val]!
+    let G := matOf (lcmvGram Float Af Uf)
+    let t := solveVec (matFn (D := K) G) (vecFn (D := K) r)
+    some (fmtVec (lcmvCombine Uf (vecFn (D := K) t)))
+  | "souden" =>
+    -- souden D ref eps <Φxx> <Φnn>
+    let D := tokNat a 1
+    let ref := tokNat a 2
+    let eps := tokFloat a 3
+    if h : ref < D then
+      let phi := gaussSolve D D (cmat a (4 + 2 * D * D) D) (cmat a 4 D)
+      some (fmtVec (souden (matFn (D := D) phi) ⟨ref, h⟩ eps))
+    else none
+  | "wmwf" =>
+    -- wmwf D ref mu <Φxx> <Φnn>
+    let D := tokNat a 1
+    let ref := tokNat a 2
+    let mu := tokFloat a 3
+    if h : ref < D then
+      let phi := gaussSolve D D (cmat a (4 + 2 * D * D) D) (cmat a 4 D)
+      some (fmtVec (wmwf mu (matFn (D := D) phi) ⟨ref, h⟩))
+    else none
+  | "refch" =>
+    -- refch F D eps <wmat F·D·D> <Φxx> <Φnn>   → index | SNR values
+    let F := tokNat a 1
+    let D := tokNat a 2
+    let eps := tokFloat a 3
+    match D with
+    | 0 => none
+    | n+1 =>
+      let sz := 2 * F * (n+1) * (n+1)
+      let W : Fin F → Fin (n+1) → Fin (n+1) → CF := stackTok a 4
+      let X : Fin F → Fin (n+1) → Fin (n+1) → CF := stackTok a (4 + sz)
+      let N : Fin F → Fin (n+1) → Fin (n+1) → CF := stackTok a (4 + 2 * sz)
+      let snr := Array.ofFn (n := n+1) (refSnr W X N eps)
+      let snrF : Fin (n+1) → Float := fun r => snr[r.val]!
+      some (toString (vargmax snrF).val ++ " " ++ fmtFloats snr.toList)
+  | "soudenauto" =>
+    -- soudenauto F D eps <Φxx> <Φnn>   → ref, then w (F·D)
+    let F := tokNat a 1
+    let D := tokNat a 2
+    let eps := tokFloat a 3
+    match D with
+    | 0 => none
+    | n+1 =>
+      let sz := 2 * F * (n+1) * (n+1)
+      let phi := phiTabs a 4 (4 + sz) F (n+1)
+      let X : Fin F → Fin (n+1) → Fin (n+1) → CF := stackTok a 4
+      let N : Fin F → Fin (n+1) → Fin (n+1) → CF := stackTok a (4 + sz)
+      let ph : Fin F → Fin (n+1) → Fin (n+1) → CF := stackFn phi
+      let ref := refChannel (fun f => soudenMat (ph f) eps) X N eps
+      -- `soudenAuto` evaluated with the reference channel shared (same definition, computed once)
+      let w := fun f => souden (ph f) ref eps
+      some (toString ref.val ++ " " ++ fmtC ((List.finRange F).flatMap fun f => (List.finRange (n+1)).map fun d => w f d))
+  | "wmwfauto" =>
+    -- wmwfauto F D mu tiny <Φxx> <Φnn>
+    let F := tokNat a 1
+    let D := tokNat a 2
+    let mu := tokFloat a 3
+    let tiny := tokFloat a 4
+    match D with
+    | 0 => none
+    | n+1 =>
+      let sz := 2 * F * (n+1) * (n+1)
+      let phi := phiTabs a 5 (5 + sz) F (n+1)
+      let X : Fin F → Fin (n+1) → Fin (n+1) → CF := stackTok a 5
+      let N : Fin F → Fin (n+1) → Fin (n+1) → CF := stackTok a (5 + sz)
+      let ph : Fin F → Fin (n+1) → Fin (n+1) → CF := stackFn phi
+      let ref := refChannel (fun f => wmwfFilter mu (ph f)) X N tiny
+      let w := fun f => wmwf mu (ph f) ref
+      some (toString ref.val ++ " " ++ fmtC ((List.finRange F).flatMap fun f => (List.finRange (n+1)).map fun d => w f d))
+  | "gev" =>
+    -- gev D <Φxx> <Φnn>   → top generalised eigenvalue (1 float) then the selected eigenvector
+    let D := tokNat a 1
+    match D with
+    | 0 => none
+    | n+1 =>
+      let (vals, vecs) := geighF (n+1) (cmat a 2 (n+1)) (cmat a (2 + 2 * (n+1) * (n+1)) (n+1))
+      let valsF : Fin (n+1) → Float := fun i => vals[i.val]!
+      let w := gevSelect valsF (fun d i => vecs.at d.val i.val) (D := n+1)
+      some (fmtFloats [valsF (vargmax valsF)] ++ " " ++ fmtVec w)
+  | "pca" =>
+    -- pca D scaling <Φ>   → top eigenvalue then the scaled vector (own eigen-solver)
+    let D := tokNat a 1
+    match D with
+    | 0 => none
+    | n+1 =>
+      let Φ := cmat a 3 (n+1)
+      let (vals, vecs) := eighF (n+1) Φ
+      let (v, lam) := pcaSelect (fun i => vals[i.val]!) (fun d i => vecs.at d.val i.val) (n := n)
+      let vt := vecOf v
+      some (fmtFloats [lam] ++ " " ++
+        fmtVec (pcaVector cfSqrt (scalingOf (tokNat a 2)) (matFn (D := n+1) Φ) (vecFn (D := n+1) vt) lam))
+  | "pcav" =>
+    -- pcav D scaling lam <Φ> <v>   (top eigenpair from the real eigh)
+    let D := tokNat a 1
+    let lam := tokFloat a 3
+    let Φ := cmat a 4 D
+    let v := cvec a (4 + 2 * D * D) D
+    some (fmtVec (pcaVector cfSqrt (scalingOf (tokNat a 2)) (matFn (D := D) Φ) (vecFn (D := D) v) lam))
+  | "rank1" =>
+    -- rank1 D <Φ> <a>
+    let D := tokNat a 1
+    let Φ := cmat a 2 D
+    let v := cvec a (2 + 2 * D * D) D
+    some (fmtMat (rankOne Float (matFn (D := D) Φ) (vecFn (D := D) v)))
+  | "rank1pca" =>
+    -- rank1pca D <Φ>     get_pca_rank_one_estimate with the driver's own eigen-solver
+    let D := tokNat a 1
+    match D with
+    | 0 => none
+    | n+1 =>
+      let Φ := cmat a 2 (n+1)
+      let (vals, vecs) := eighF (n+1) Φ
+      let (v, _) := pcaSelect (fun i => vals[i.val]!) (fun d i => vecs.at d.val i.val) (n := n)
+      let vt := vecOf v
+      some (fmtMat (rankOne Float (matFn (D := n+1) Φ) (vecFn (D := n+1) vt)))
+  | "rank1gev" =>
+    -- rank1gev D <Φxx> <Φnn>     get_gev_rank_one_estimate with the driver's own generalised eigen-solver
+    let D := tokNat a 1
+    match D with
+    | 0 => none
+    | n+1 =>
+      let X := cmat a 2 (n+1)
+      let N := cmat a (2 + 2 * (n+1) * (n+1)) (n+1)
+      let (vals, vecs) := geighF (n+1) X N
+      let w := vecOf (gevSelect (n := n) (D := n+1) (fun i => vals[i.val]!) (fun d i => vecs.at d.val i.val))
+      let atf := vecOf (gevAtf (matFn (D := n+1) N) (vecFn (D := n+1) w))
+      some (fmtMat (rankOne Float (matFn (D := n+1) X) (vecFn (D := n+1) atf)))
+  | "gevatf" =>
+    -- gevatf D <Φnn> <w>
+    let D := tokNat a 1
+    let Φ := cmat a 2 D
+    let v := cvec a (2 + 2 * D * D) D
+    some (fmtVec (gevAtf (matFn (D := D) Φ) (vecFn (D := D) v)))
+  | "ban" =>
+    -- ban D <w> <Φnn>   → gain (1 float) then the normalised vector
+    let D := tokNat a 1
+    let v := cvec a 2 D
+    let Φ := cmat a (2 + 2 * D) D
+    let g : Float := banFactor cfSqrt (vecFn (D := D) v) (matFn (D := D) Φ)
+    some (fmtFloats [g] ++ " " ++ fmtVec (ban (α := Float) cfSqrt (vecFn (D := D) v) (matFn (D := D) Φ)))
   | _ => none
 
 end Driver
